@@ -9,19 +9,25 @@ package c01
 import (
 	"bytes"
 	"context"
+	"encoding/json"
 	"fmt"
+	"os"
 	"sort"
 	"strings"
+	"sync"
 	"time"
 
 	"github.com/quay/claircore"
 	"github.com/quay/claircore/alpine"
 	"github.com/quay/claircore/dpkg"
+	"github.com/quay/claircore/gobin"
 	"github.com/quay/claircore/indexer"
 	"github.com/quay/claircore/indexer/controller"
 	"github.com/quay/claircore/java"
 	"github.com/quay/claircore/nodejs"
 	"github.com/quay/claircore/python"
+	"github.com/quay/claircore/rhel"
+	"github.com/quay/claircore/rpm"
 	"github.com/quay/claircore/ruby"
 	"github.com/quay/claircore/whiteout"
 )
@@ -64,15 +70,64 @@ func (r *memRealizer) Close() error {
 	return nil
 }
 
+// ecosystems: libindex's default list without rhcc (its scanner wants a
+// name-to-repository mapping from the network), in libindex's order.
 func ecosystems(ctx context.Context) []*indexer.Ecosystem {
 	return []*indexer.Ecosystem{
 		dpkg.NewEcosystem(ctx),
 		alpine.NewEcosystem(ctx),
+		rhel.NewEcosystem(ctx),
+		rpm.NewEcosystem(ctx),
 		python.NewEcosystem(ctx),
 		java.NewEcosystem(ctx),
+		gobin.NewEcosystem(ctx),
 		ruby.NewEcosystem(ctx),
 		nodejs.NewEcosystem(ctx),
 		whiteout.NewEcosystem(ctx), // libindex always appends it
+	}
+}
+
+// ecoKinds: which coalescer model each ecosystem of ecosystems() runs under,
+// and the name the e2e line gives the file ecosystems.
+var ecoKinds = []string{"linux", "linux", "rhel", "linux", "lang", "lang", "gobin", "lang", "lang", "wh"}
+var ecoNames = []string{"dpkg", "apk", "rhel", "rpm", "python", "java", "*gobin", "ruby", "nodejs", "whiteout"}
+
+// the repository-to-CPE mapping the rhel repository scanner is configured with
+// (a local file: no network). One CPE per content set.
+var contentSets = map[string]string{
+	"rhel-8-for-x86_64-baseos-rpms":    "cpe:/o:redhat:enterprise_linux:8::baseos",
+	"rhel-8-for-x86_64-appstream-rpms": "cpe:/a:redhat:enterprise_linux:8::appstream",
+	"rhocp-4.14-for-rhel-8-x86_64-rpms": "cpe:/a:redhat:openshift:4.14::el8",
+}
+
+var mappingFile struct {
+	once sync.Once
+	path string
+	err  error
+}
+
+func repo2cpeFile() (string, error) {
+	mappingFile.once.Do(func() {
+		data := map[string]any{}
+		for cs, cpe := range contentSets {
+			data[cs] = map[string]any{"cpes": []string{cpe}}
+		}
+		b, _ := json.Marshal(map[string]any{"data": data})
+		f, err := os.CreateTemp("", "c01-repo2cpe-*.json")
+		if err != nil {
+			mappingFile.err = err
+			return
+		}
+		f.Write(b)
+		f.Close()
+		mappingFile.path = f.Name()
+	})
+	return mappingFile.path, mappingFile.err
+}
+
+func removeMappingFile() {
+	if mappingFile.path != "" {
+		os.Remove(mappingFile.path)
 	}
 }
 
@@ -109,6 +164,19 @@ func realIndex(tars [][]byte) indexResult {
 		Ecosystems: ecos,
 		Vscnrs:     indexer.MergeVS(ps, ds, rs, fs),
 		Resolvers:  []indexer.Resolver{&whiteout.Resolver{}},
+	}
+	mf, err := repo2cpeFile()
+	if err != nil {
+		return indexResult{Err: err}
+	}
+	opts.ScannerConfig.Repo = map[string]func(any) error{
+		"rhel-repository-scanner": func(v any) error {
+			if c, ok := v.(*rhel.RepositoryScannerConfig); ok {
+				c.DisableAPI = true
+				c.Repo2CPEMappingFile = mf
+			}
+			return nil
+		},
 	}
 	// one scan at a time: the store hands out ids in arrival order, and the protocol lines
 	// (which carry the ids) must be a function of the seed
